@@ -4538,7 +4538,9 @@ class ParameterizedMetaclass(type):
             type.__setattr__(mcs,attribute_name,value)
 
             if isinstance(value,Parameter):
-                mcs.__param_inheritance(attribute_name,value)
+                # as for a Parameter declared in the class body or added
+                # with add_parameter: it has to be told its name too
+                mcs._initialize_parameter(attribute_name,value)
                 # a Parameter was added or replaced: drop the cached
                 # params() of this class and of its subclasses
                 for subcls in descendents(mcs):
